@@ -344,6 +344,13 @@ Definition standin_update (s : N) (l : list N) : N :=
 Definition standin_masked (s : N) : N :=
   N.land (N.lor (N.shiftr s 15) (N.land (N.shiftl s 17) M32) + 2726488792) M32.
 
+(* Specification for a caller that KEEPS GOING after an error (C11, last clause; family `cont` of
+   the harness): write call number k of a build that needs w write calls fails once. If the fault
+   is consumed (k < w) at least one byte was never accepted, so the build may not be reported
+   finished. What the builder does after an error (its unfinished-node stack is left half
+   updated) is not part of this model: only the specification is given. *)
+Definition cont_spec_finished (k w : nat) : bool := negb (k <? w)%nat.
+
 (* entry points of the extracted model (stand-in checksum, repaired CountingWriter) *)
 Definition x_sink_session := run_sink_session standin_update standin_masked false.
 Definition x_buf_session := run_buf_session standin_update standin_masked false.
